@@ -791,6 +791,42 @@ func ruleOU3(c *Ctx) {
 				wl = call
 			}
 		}
+		// every requested edge is recorded (or the command fails): in the committing helper's loop over the edges no
+		// iteration can move on to the next edge without passing the link emission - the reply lists the requested edges
+		if wl != nil {
+			if wf := calleeOf(wl.Common()); wf != nil {
+				scope := map[*ssa.Function]bool{wf: true}
+				for _, g := range c.unitOf(wf) {
+					scope[g] = true
+				}
+				for _, g := range Closures(wf) {
+					scope[g] = true
+				}
+				n := 0
+				for _, em := range ems {
+					if !scope[em.Fn] || !(em.has("link") || em.has("unlink")) {
+						continue
+					}
+					hdr := enclosingLoopHeader(em.Call.Block())
+					if hdr == nil {
+						continue
+					}
+					n++
+					body := loopBlocks(hdr)
+					skip := false
+					for _, succ := range hdr.Succs {
+						if !body[succ] || succ == em.Call.Block() {
+							continue
+						}
+						if reach(succ, nil, map[*ssa.BasicBlock]bool{em.Call.Block(): true})[hdr] {
+							skip = true
+						}
+					}
+					c.check(!skip, c.Name(em.Fn), fmt.Sprintf("sequence-reply|every-edge-recorded#%d", n), c.Pos(em.Call.Pos()), "each requested edge reaches the emission or fails the command",
+						"an iteration of the edge loop can continue with the next edge without recording this one: the reply (built from the requested edges) reports an edge the log does not contain")
+				}
+			}
+		}
 		ok := false
 		if wl != nil {
 			// the slice passed to the committing call is the slice the reply loop indexes
